@@ -436,12 +436,13 @@ def _arm_shift_amounts(ctx):
 # gate "token": the value is stored through a Token slice (the setter rejects what does not fit; its leniency for negative numbers is the known finding
 # C10.R4); gate "none": the halfword is assembled with integer arithmetic, so the encoder itself has to reject everything that does not fit.
 THUMB_SCALED = {"Str2": ("imm5", 4, 5, "token"), "Ldr2": ("imm5", 4, 5, "token"), "Strh": ("imm5", 2, 5, "token"), "Ldrh": ("imm5", 2, 5, "token"),
-                "Strb": ("imm5", 1, 5, "token"), "Ldrb": ("imm5", 1, 5, "token"), "Str1": ("offset", 4, 8, "none"), "Ldr1": ("offset", 4, 8, "none")}
+                "Strb": ("imm5", 1, 5, "token"), "Ldrb": ("imm5", 1, 5, "token"), "Str1": ("offset", 4, 8, "none"), "Ldr1": ("offset", 4, 8, "none"),
+                "AddSp": ("imm7", 4, 7, "none"), "SubSp": ("imm7", 4, 7, "none")}    # ADD/SUB (SP plus immediate) T2: imm32 = ZeroExtend(imm7:'00')
 
 
 def _thumb_scaled_offsets(ctx):
     from .. import minieval
-    ctx.rule("C08.R12", "Thumb load/store with immediate offset: the field holds the printed byte offset divided by the access size; an offset that is not a multiple of the size is rejected, and where the halfword is built by integer arithmetic so is a negative or too large one (encode() evaluated for offsets -8..4*2^width)", floor=8)
+    ctx.rule("C08.R12", "Thumb load/store and sp adjustment with immediate: the field holds the printed byte offset divided by the access size; an offset that is not a multiple of the size is rejected, and where the halfword is built by integer arithmetic so is a negative or too large one (encode() evaluated for offsets -8..4*2^width)", floor=8)
     rel = "ppci/arch/arm/thumb_instructions.py"
     for cname, (opname, size, width, gate) in sorted(THUMB_SCALED.items()):
         cls = ctx.cls(rel, cname)
@@ -454,6 +455,8 @@ def _thumb_scaled_offsets(ctx):
         for v in range(-8, size * (2 ** width) + 2 * size):
             env = {"self." + opname: v, "self.rt.num": 3, "self.rn.num": 5, "self.opcode": minieval.ev(opc[0], {}) if opc else 0, "__funcs__": {}}
             rejected, stored = False, None
+            env0_ = dict(env)
+            env0_["self." + opname] = 0
             for st in enc.body:
                 try:
                     if isinstance(st, ast.Assert):
@@ -466,10 +469,15 @@ def _thumb_scaled_offsets(ctx):
                         stored = minieval.ev(st.value, env)
                     elif isinstance(st, ast.Return) and isinstance(st.value, ast.Call) and norm(st.value.func) == "u16":
                         h = minieval.ev(st.value.args[0], env)
-                        if h < 0 or h >= 2 ** 16 or (h >> 8) != ((env["self.opcode"] << 8 | 3 << 8) >> 8):
+                        env0 = dict(env0_)
+                        for st0 in enc.body:
+                            if isinstance(st0, ast.Assign) and isinstance(st0.targets[0], ast.Name):
+                                env0[st0.targets[0].id] = minieval.ev(st0.value, env0)
+                        h0 = minieval.ev(st.value.args[0], env0)      # the same halfword for offset 0
+                        if h < 0 or h >= 2 ** 16 or (h ^ h0) >= 2 ** width or h0 & (2 ** width - 1):
                             stored = ("corrupt", h)    # the offset spilled into the opcode / register bits
                         else:
-                            stored = h & 0xFF
+                            stored = h & (2 ** width - 1)
                 except minieval.Undecidable as e:
                     if isinstance(st, (ast.Assert, ast.Return)) or (isinstance(st, ast.Assign) and isinstance(st.targets[0], ast.Subscript) and norm(st.targets[0].slice) == "6:11"):
                         undec = str(e)
